@@ -21,7 +21,6 @@ fn lex_all(max: usize) {
     check("C11.lexer.reaches_eof", eof);
 }
 pub fn h_c11_lexer_a1() { lex_all(3); reach("C11.lexer_a1"); }
-pub fn ht_c11_lexer_a1_4() { lex_all(4); reach("C11.lexer_a1_4"); }
 
 fn lex_all_r1c1(max: usize) {
     let text = any_ascii_string(max);
@@ -84,3 +83,27 @@ fn lookalike_case(max: usize) {
     check("C22.sheet_name.lookalike_read_back", ok && lx.next_token() == TokenType::EOF);
 }
 pub fn h_c22_sheet_name_lookalikes() { lookalike_case(5); reach("C22.sheet_name_lookalikes"); }
+
+/// C11 (and C22): `$` + up to 10 letters + `1`: the absolute-reference path hands the whole letter run to
+/// `column_to_number`; no run of letters may panic, and more than three letters are never a column
+pub fn h_c11_lexer_long_column() {
+    let k = any_usize_to(10);
+    assume(k >= 1);
+    let mut text = String::from("$");
+    let mut i = 0;
+    while i < k {
+        let c = any_u8();
+        assume((c >= b'A') & (c <= b'Z'));
+        text.push(c as char);
+        i += 1;
+    }
+    text.push('1');
+    let locale = locale_with(".", ",");
+    let mut lx = Lexer::new(&text, LexerMode::A1, &locale, language_en());
+    let ok = match lx.next_token() {
+        TokenType::Reference { .. } => k <= 3,
+        _ => true,
+    };
+    check("C11.lexer_long_column.more_than_three_letters_is_no_column", ok);
+    reach("C11.lexer_long_column");
+}
